@@ -169,6 +169,8 @@ var c02Items = []c02Item{
 	{`<% let q1 = ftext() %>`, "", true},
 	{`<% q0 = 5 %>`, "", true},
 	{`<% if (true) { q0 = ftext() } %>`, "", true},
+	{`<% q0 = if (true) { return "R" } %>`, "", true},
+	{`<% let q2 = if (true) { %>IFTEXT<% } %>`, "", true},
 }
 
 const c02Prelude = `<% let ftext = fn() { %>T<% return "r" } %>`
@@ -211,7 +213,7 @@ func init() {
 			return s
 		},
 		Run:  c02Run,
-		Rule: "family A: every string over {< % > \\ = # a \" { \\n é} up to length L bare, and s1·TAG·s2 around each of 4 generated tags (|s1|<=3,|s2|<=2), compared with a left-to-right reference scanner that knows only the two escapes; templates whose reference scan meets a live <% that is not the generated tag are outside the grammar (totality only). Family B: <%= \"S\" %> / <%= `S` %> / let-bound / helper-argument string literals for every body S over {a \\ \" % > < # \\n é } space `} up to length L that the reference tokeniser closes at its own quote; expected = HTML-escape(denotation). Family C: every sequence of <=3 items from {text, output tag, output of a template function that has literal text and an explicit return, 22 silent constructs (expression/let/assign/if/for/comment/line-comment/fn statements incl. values that are HTML)} in 10 placements (top, if, else, for, fn body, helper block, for+if, iterator loop ending in break, slice loop ending in continue, map loop ending in break); expected = the same sequence with silent items deleted. Family D: comment tags whose body is any string of <=3 (4) symbols over {a \" ' # ` < % { } ( \\n space \\ = let 1.2.3} not containing the closing delimiter, spaced and tight, at top level and inside a block: the tag contributes nothing and the template continues after its %>. Non-trivial: contains an escape-relevant byte next to a boundary / a silent item.",
+		Rule: "family A: every string over {< % > \\ = # a \" { \\n é} up to length L bare, and s1·TAG·s2 around each of 4 generated tags (|s1|<=3,|s2|<=2), compared with a left-to-right reference scanner that knows only the two escapes; templates whose reference scan meets a live <% that is not the generated tag are outside the grammar (totality only). Family B: <%= \"S\" %> / <%= `S` %> / let-bound / helper-argument string literals for every body S over {a \\ \" % > < # \\n é } space `} up to length L that the reference tokeniser closes at its own quote; expected = HTML-escape(denotation). Family C: every sequence of <=3 items from {text, output tag, output of a template function that has literal text and an explicit return, 24 silent constructs (expression/let/assign/if/for/comment/line-comment/fn statements incl. values that are HTML)} in 10 placements (top, if, else, for, fn body, helper block, for+if, iterator loop ending in break, slice loop ending in continue, map loop ending in break); expected = the same sequence with silent items deleted. Family D: comment tags whose body is any string of <=3 (4) symbols over {a \" ' # ` < % { } ( \\n space \\ = let 1.2.3} not containing the closing delimiter, spaced and tight, at top level and inside a block: the tag contributes nothing and the template continues after its %>. Non-trivial: contains an escape-relevant byte next to a boundary / a silent item.",
 		Bound: func(th bool) string {
 			if th {
 				return "A: bare |s|<=6, around |s1|<=3 |s2|<=2, core alphabet {\\ < % a} bare |s|<=10 and before/around a tag |s|<=8; B: |S|<=5; C: sequences <=3"
